@@ -29,6 +29,7 @@ type LoopSpec struct {
 type GhostDecl struct {
 	Name string
 	Type TypeExpr
+	Init Expr // optional initial value (function-level ghost variables)
 }
 
 type CallHint struct {
@@ -65,6 +66,7 @@ type FuncSpec struct {
 }
 
 type PredDef struct {
+	Text   string
 	Name   string
 	Params []GhostDecl
 	Ret    *TypeExpr // nil => bool
@@ -75,6 +77,7 @@ type PredDef struct {
 }
 
 type AxiomDef struct {
+	Text string
 	Name string
 	Body Expr
 	Src  string
@@ -223,6 +226,7 @@ func (cs *ContractSet) parseLines(file string, lines []string, nums []int, exter
 				return fmt.Errorf("%s: %v", src, err)
 			}
 			pd.Src = src
+			pd.Text = it.rest
 			if _, dup := cs.Preds[pd.Name]; dup {
 				return fmt.Errorf("%s: duplicate pred %s", src, pd.Name)
 			}
@@ -238,7 +242,7 @@ func (cs *ContractSet) parseLines(file string, lines []string, nums []int, exter
 			if err != nil {
 				return fmt.Errorf("%s: %v", src, err)
 			}
-			cs.Axioms = append(cs.Axioms, &AxiomDef{Name: strings.TrimSpace(it.rest[:k]), Body: e, Src: src, IsLemma: it.kw == "lemma"})
+			cs.Axioms = append(cs.Axioms, &AxiomDef{Name: strings.TrimSpace(it.rest[:k]), Body: e, Src: src, IsLemma: it.kw == "lemma", Text: it.rest[k+1:]})
 			continue
 		case "guards":
 			// guards (*Heap).mu : h.data, h.comp
@@ -317,8 +321,18 @@ func (cs *ContractSet) parseLines(file string, lines []string, nums []int, exter
 				c, _ := mk(false)
 				curLoop.Ghost = append(curLoop.Ghost, c)
 			} else {
-				// declaration: ghost name type
-				f := strings.Fields(it.rest)
+				// declaration: ghost name type [= init]
+				decl := it.rest
+				var init Expr
+				if k := topLevelAssign(decl); k >= 0 {
+					e, err := parseExpr(decl[k+1:])
+					if err != nil {
+						return fmt.Errorf("%s: %v", src, err)
+					}
+					init = e
+					decl = decl[:k]
+				}
+				f := strings.Fields(decl)
 				if len(f) < 2 {
 					return fmt.Errorf("%s: ghost decl needs name and type", src)
 				}
@@ -326,7 +340,7 @@ func (cs *ContractSet) parseLines(file string, lines []string, nums []int, exter
 				if err != nil {
 					return fmt.Errorf("%s: %v", src, err)
 				}
-				cur.Ghosts = append(cur.Ghosts, GhostDecl{f[0], te})
+				cur.Ghosts = append(cur.Ghosts, GhostDecl{f[0], te, init})
 			}
 		case "exit-ghost":
 			c, _ := mk(false)
@@ -340,7 +354,7 @@ func (cs *ContractSet) parseLines(file string, lines []string, nums []int, exter
 			if err != nil {
 				return fmt.Errorf("%s: %v", src, err)
 			}
-			cur.GhostParam = append(cur.GhostParam, GhostDecl{f[0], te})
+			cur.GhostParam = append(cur.GhostParam, GhostDecl{Name: f[0], Type: te})
 		case "arith":
 			cur.Arith = strings.TrimSpace(it.rest)
 		case "inline":
@@ -473,7 +487,7 @@ func parsePredDef(s, kw string) (*PredDef, error) {
 		if err != nil {
 			return nil, err
 		}
-		pd.Params = append(pd.Params, GhostDecl{f[0], te})
+		pd.Params = append(pd.Params, GhostDecl{Name: f[0], Type: te})
 	}
 	rest := strings.TrimSpace(s[cl+1:])
 	if kw == "ufun" {
@@ -751,7 +765,7 @@ func (p *parser) expr() (Expr, error) {
 			if err != nil {
 				return nil, err
 			}
-			vars = append(vars, GhostDecl{nm.s, te})
+			vars = append(vars, GhostDecl{Name: nm.s, Type: te})
 			if p.accept(",") {
 				continue
 			}
@@ -814,7 +828,12 @@ func (p *parser) iff() (Expr, error) {
 		return nil, err
 	}
 	for p.accept("<==>") {
-		y, err := p.implies()
+		var y Expr
+		if t := p.peek(); t.k == "id" && (t.s == "forall" || t.s == "exists" || t.s == "let") {
+			y, err = p.expr()
+		} else {
+			y, err = p.implies()
+		}
 		if err != nil {
 			return nil, err
 		}
@@ -872,7 +891,12 @@ func (p *parser) or() (Expr, error) {
 		return nil, err
 	}
 	for p.accept("||") {
-		y, err := p.and()
+		var y Expr
+		if t := p.peek(); t.k == "id" && (t.s == "forall" || t.s == "exists") {
+			y, err = p.expr()
+		} else {
+			y, err = p.and()
+		}
 		if err != nil {
 			return nil, err
 		}
@@ -1094,4 +1118,75 @@ func (p *parser) primary() (Expr, error) {
 		}
 	}
 	return nil, fmt.Errorf("unexpected token %q", t.s)
+}
+
+// specText: all clause texts of a spec (used to decide which axioms and predicates it mentions).
+func (sp *FuncSpec) specText() string {
+	var b strings.Builder
+	add := func(cs []*Clause) {
+		for _, c := range cs {
+			b.WriteString(c.Text)
+			b.WriteByte(' ')
+		}
+	}
+	add(sp.Requires)
+	add(sp.Ensures)
+	add(sp.Asserts)
+	add(sp.ExitGhost)
+	add(sp.Uses)
+	for _, l := range sp.Loops {
+		add(l.Invariants)
+		add(l.Ghost)
+	}
+	for _, g := range sp.Ghosts {
+		b.WriteString(g.Name + " ")
+	}
+	return b.String()
+}
+
+func mentions(text, name string) bool {
+	for i := 0; ; {
+		k := strings.Index(text[i:], name)
+		if k < 0 {
+			return false
+		}
+		k += i
+		before := k == 0 || !isIdentChar(text[k-1])
+		after := k+len(name) >= len(text) || !isIdentChar(text[k+len(name)])
+		if before && after {
+			return true
+		}
+		i = k + len(name)
+	}
+}
+
+func isIdentChar(c byte) bool {
+	return c == '_' || c >= 'a' && c <= 'z' || c >= 'A' && c <= 'Z' || c >= '0' && c <= '9'
+}
+
+// axiomsFor: axioms naming an uninterpreted function that the spec mentions, directly or through predicates.
+func (cs *ContractSet) axiomsFor(sp *FuncSpec) []*AxiomDef {
+	text := sp.specText()
+	// close over predicate bodies
+	seen := map[string]bool{}
+	for changed := true; changed; {
+		changed = false
+		for name, pd := range cs.Preds {
+			if !seen[name] && mentions(text, name) {
+				seen[name] = true
+				changed = true
+				text += " " + pd.Text
+			}
+		}
+	}
+	var out []*AxiomDef
+	for _, ax := range cs.Axioms {
+		for name, pd := range cs.Preds {
+			if pd.Uninterp && seen[name] && mentions(ax.Text, name) {
+				out = append(out, ax)
+				break
+			}
+		}
+	}
+	return out
 }
